@@ -104,8 +104,11 @@ class DefaultDeploymentManager(DeploymentManager):
             # If it has already been processed by the DeploymentManager
             if deployment_name in self.config_map:
                 # If the DeploymentManager is creating the environment, wait for it to finish
+                await self.events_map[deployment_name].wait()
                 if deployment_name not in self.deployments_map:
-                    await self.events_map[deployment_name].wait()
+                    raise WorkflowExecutionException(
+                        f"FAILED deployment of {deployment_name}"
+                    )
                 await self._inner_deploy(
                     connector_type=type(self.deployments_map[deployment_name]),
                     deployment_config=self.config_map[deployment_name],
